@@ -112,6 +112,8 @@ def cli_case(task):
             args += ["-o", path_of(sel)]
         elif k in ("make_bin", "make_raw"):
             text += f'\t{k} "{path_of(sel)}"\n'
+        elif k == "two":
+            text += f'\t{sel["k1"]} "{path_of(sel)}"\n\t{sel["k2"]} "{sel["stem2"]}.{sel["ext2"]}"\n'
         elif k == "make_bin_default":
             text += "\tmake_bin\n"
         elif k == "implicit_bin":
@@ -121,6 +123,7 @@ def cli_case(task):
         (root / "main.mac").write_text(text)
         for rel, content in (fs or {}).items():
             p = root / rel
+            p.parent.mkdir(parents=True, exist_ok=True)
             if isinstance(content, bytes):
                 p.write_bytes(content)
             else:
@@ -156,7 +159,7 @@ def main(run):
     thorough = run.tier == "thorough"
     run.rule = ("(a) programs written by TLC over ListAlphabet (labels a b c::, local 1:, constants -5, 70000, 0, m == b - a, a = 3, b = 512, two "
                 "includable files with private/exported/negative symbols, .extern all, 1-3 files) assembled in-process, listing compared line by "
-                "line; (b) all 51 LstPath selector scenarios x programs through the real CLI with --lst; non-trivial = accepted program listing at "
+                "line; (b) all 55 LstPath selector scenarios (incl. two directive outputs: the first names the listing) x programs through the real CLI with --lst; non-trivial = accepted program listing at "
                 "least two symbols, or a CLI scenario")
     recs, inc = explore(run, "ListAlphabet", "ListIncFiles", 4 if thorough else 3, 1, [512], label="AsmCore listing, 1 file (exhaustive)")
     recs2, inc2 = explore(run, "ListAlphabet", "ListIncFiles", 4, 3, [512, 1026], simulate=(8000 if thorough else 1200), depth=14, seed=run.seed + 19,
